@@ -91,7 +91,11 @@ JmpIndirect == \A lo \in Byte :
                !.mem = (v :> 52) @@ (IF lo = 255 THEN (768 :> 18) @@ (1024 :> 86) ELSE (v + 1 :> 18)) @@ @]
       c1 == Step(c0) IN
   c1.pc = 4660 /\ c1.sp = 253 /\ ~c1.unspec
+(* left open (finding EmulatorOverflowAtTopOfMemory): jmp ($ffff), and every instruction whose last byte is at $FFFF *)
 JmpIndirectTopOfMemoryOpen == Step(At(0, 0, 0, 253, FALSE, <<108, 255, 255>>)).unspec
+AtTop(bytes) == [Reset(65536 - Len(bytes), [i \in (65536 - Len(bytes))..65535 |-> bytes[i - 65535 + Len(bytes)]]) EXCEPT !.a = 1]
+TopEdgeOpen == /\ Step(AtTop(<<234>>)).unspec /\ Step(AtTop(<<169, 1>>)).unspec /\ Step(AtTop(<<173, 16, 0>>)).unspec
+               /\ ~TopEdge([AtTop(<<234, 0>>) EXCEPT !.pc = 65534]) /\ Step([AtTop(<<234, 0>>) EXCEPT !.pc = 65534]).pc = 65535
 
 (* decimal mode: silent in the property's reading, binary in the implementation-shaped reading *)
 DecimalReadings == \A a \in {0, 9, 25, 153}, m \in {1, 9, 25, 153} :
@@ -100,6 +104,6 @@ DecimalReadings == \A a \in {0, 9, 25, 153}, m \in {1, 9, 25, 153} :
   /\ LET r == StepM(c0, TRUE) IN ~r.unspec /\ r.a = (a + m) % 256 /\ r.f.d /\ r.f.c = (a + m > 255)
 
 AllHold == PhpPushesBreakBits /\ PlpIgnoresBreakBits /\ PhpPlpIdentity /\ RtiRestores /\ JmpIndirect
-           /\ JmpIndirectTopOfMemoryOpen /\ DecimalReadings /\ AdcArithmetic /\ SbcArithmetic /\ CompareIsSubtractWithoutStore /\ LogicIsBitwise /\ ShiftsRoundTrip
+           /\ JmpIndirectTopOfMemoryOpen /\ TopEdgeOpen /\ DecimalReadings /\ AdcArithmetic /\ SbcArithmetic /\ CompareIsSubtractWithoutStore /\ LogicIsBitwise /\ ShiftsRoundTrip
            /\ JsrRtsRoundTrip /\ BranchOffsets /\ ZeroPageWraps
 ================================================================================
